@@ -29,6 +29,9 @@ import Poulpy.Lemmas.TraceExec
 import Poulpy.Lemmas.TraceNoise
 import Poulpy.Lemmas.TraceWrap
 import Poulpy.Lemmas.GgswCross
+import Poulpy.Lemmas.PackJump
+import Poulpy.Lemmas.PackExec
+import Poulpy.Lemmas.PackInstance
 import Poulpy.Model.Core.Pack
 import Poulpy.Props.C09
 
@@ -4160,5 +4163,162 @@ example (big128 : Bool) : Ks.ggswKeyswitch big128 1 3 2 1 1 3 1 [KsDec.exGX3] Ks
 example : KsDec.expandAdmissible false (KsDec.shapeT 16 4096 1 1 4 4) 4096 ((2 ^ 17 - 1) + 2 ^ 16) (2 ^ 15) ((2 ^ 17 - 1) + 2 ^ 16) := by
   decide
 end GgswCrossSec
+
+section PackJumpSec
+open PackJump TraceJump AutoMul Hal C02L
+variable {M : Type*} [AddCommGroup M]
+
+/-- the integer wrap `2^{i}·m·w` produced at level `i` is mapped into `2^K·m·R` by whatever the remaining levels do (`trace_suffix`) -/
+theorem pack_wrap_scale (K i : ℕ) (hi : i ≤ K) (m : ℤ) (w0 : Ks.R (2 ^ K)) : Wrap K i (2 ^ K * m) ((2 ^ i * m) • w0) :=
+  PackJump.wrap_scale K i hi m w0
+
+/-- the wrap invariant is closed under the merge operator `U_i(a,b) = (1+σ_i)a + X^{t_i}(1+σ_i)b`: `T_{i+1}∘(1+σ_i) = T_i`, and every later `σ_j` fixes `X^{t_i}` -/
+theorem pack_wrap_merge (K i : ℕ) (hi : i < K) (Λ : ℤ) (wa wb : Ks.R (2 ^ K)) (ha : Wrap K i Λ wa) (hb : Wrap K i Λ wb) :
+    Wrap K (i + 1) Λ (U K i wa wb) :=
+  PackJump.wrap_U K i hi Λ wa wb ha hb
+
+/-- one level of the slot invariant `(2^i c)•φ = c•A + ι Err + w` (`w` a wrap below level `i`) through an executed merge relation -/
+theorem pack_step_compose (K i : ℕ) (hi : i < K) (c Q : ℤ) (g : ℤ) (hg : IsLvl (2 ^ K) g i)
+    (pa pb pr Aa Ab wa wb w0 : Ks.R (2 ^ K)) (EaL EbL EL : Poly)
+    (hEa : EaL.length = 2 ^ K) (hEb : EbL.length = 2 ^ K) (hE : EL.length = 2 ^ K)
+    (ha : (2 ^ i * c) • pa = c • Aa + Ks.ι (2 ^ K) EaL + wa) (hwa : Wrap K i (2 ^ K * (c * Q)) wa)
+    (hb : (2 ^ i * c) • pb = c • Ab + Ks.ι (2 ^ K) EbL + wb) (hwb : Wrap K i (2 ^ K * (c * Q)) wb)
+    (hm : (2 * c) • pr = c • U K i pa pb + Ks.ι (2 ^ K) EL + (2 * c * Q) • w0) :
+    ∃ (ErrL : Poly) (w : Ks.R (2 ^ K)), ErrL.length = 2 ^ K ∧
+      normInf ErrL ≤ 2 * normInf EaL + 2 * normInf EbL + 2 ^ i * normInf EL ∧
+      Wrap K (i + 1) (2 ^ K * (c * Q)) w ∧
+      (2 ^ (i + 1) * c) • pr = c • U K i Aa Ab + Ks.ι (2 ^ K) ErrL + w :=
+  PackJump.packStep_compose K i hi c Q g hg pa pb pr Aa Ab wa wb w0 EaL EbL EL hEa hEb hE ha hwa hb hwb hm
+
+/-- the full trace of `ι a` is `2^K·a₀`: the constant coefficient -/
+theorem trace_full_coeff0 (K : ℕ) (a : Poly) (ha : a.length = 2 ^ K) :
+    traceOp (2 ^ K) (List.range' 0 K) (Ks.ι (2 ^ K) a) = (2 ^ K * a.getD 0 0 : ℤ) • (1 : Ks.R (2 ^ K)) :=
+  PackJump.trace_full_coeff0 K a ha
+
+/-- reading the ring relation of `glwe_pack_decrypts` coefficient by coefficient (ι is injective on length-`N` lists) -/
+theorem pack_read_coeff (N G n : ℕ) (hN : 0 < N) (hG : 0 < G) (hn : n * G ≤ N) (c Λ₁ Q : ℤ) (hΛ : 0 < Λ₁ * c) (u : ℕ → ℤ)
+    (P Err : Poly) (z : Ks.R N) (hP : P.length = N) (hErr : Err.length = N)
+    (h : (Λ₁ * c) • Ks.ι N P
+      = c • (∑ k ∈ Finset.range n, rt N ^ (k * G) * ((Λ₁ * u k : ℤ) • (1 : Ks.R N))) + Ks.ι N Err + (Λ₁ * c * Q) • z)
+    (J : ℕ) (hJ : J < N) :
+    ∃ e q : ℤ, P.getD J 0 = (if J % G = 0 ∧ J / G < n then u (J / G) else 0) + e + Q * q ∧ (Λ₁ * c) * |e| ≤ normInf Err :=
+  PackJump.pack_read_coeff N G n hN hG hn c Λ₁ Q hΛ u P Err z hP hErr h J hJ
+
+/-- `N = 4`: the full trace kills `X`, and maps `1` to `4` -/
+example : TraceJump.traceOp (2 ^ 2) (List.range' 0 2) (TraceJump.rt (2 ^ 2) ^ 1) = 0 := PackJump.trace_full_mon 2 1 (by norm_num) (by norm_num)
+example : TraceJump.traceOp (2 ^ 2) (List.range' 0 2) (1 : Ks.R (2 ^ 2)) = 2 ^ 2 • (1 : Ks.R (2 ^ 2)) := PackJump.trace_full_one 2
+end PackJumpSec
+
+section PackExecSec
+open KsDec Hal Core Core.Ops C02L AutoMul TraceJump PackJump
+variable {M : Type*} [AddCommGroup M]
+
+/-- **one EXECUTED merge (`pack_internal` / `combine`), three code paths**: `(2c)•φ(r) = c•U_i(φ_a, φ_b) + ι Err + (2c·2^M)•w`, `‖Err‖_∞ ≤ mergeBeta = c·4(1+‖sk‖₁) + 2·BA_i`; per-operation relations instantiated from C02 (`rotate`, `add`, `sub`, `rsh_phase`, `normalize_assign_phase`) and `glwe_automorphism(_add/_sub_negate)_decrypts`; the result is again well formed with bounded digits -/
+theorem merge_level_decrypts (big128 : Bool) (K i : ℕ) (hi : i < K) (b S rk : ℕ) (hb62 : b ≤ 62) (H : ℤ) (hH : 2 ^ b - 1 ≤ H)
+    (hh2 : NormL.HeadRoom 64 b 0 (H + H)) (key : Ks.Key) (sk : List Poly) (gInv : Int) (EL KL : ℕ → ℕ → Poly) (Dm BA : Int)
+    (hBA : 0 ≤ BA) (hsk : Ks.AllLen (2 ^ K) sk) (hg : IsLvl (2 ^ K) key.p i)
+    (hk : MergeKeyOk big128 (2 ^ K) b S rk sk key gInv EL KL Dm BA)
+    (a bo : Option Ks.Ct) (sh : Ks.Ct) (ha : OptInv (2 ^ K) b S rk H a) (hb : OptInv (2 ^ K) b S rk H bo)
+    (hsh : a = none → bo.isSome → TraceInv (2 ^ K) b S rk H sh)
+    (r : Option Ks.Ct) (h : Ks.mergeStep big128 (2 ^ K) i key a bo sh = .ok r) :
+    OptInv (2 ^ K) b S rk H r ∧ r.isSome = (a.isSome || bo.isSome) ∧
+      ∃ (ErrL : Poly) (w0 : Ks.R (2 ^ K)), ErrL.length = 2 ^ K ∧ normInf ErrL ≤ mergeBeta b S key.mat.size rk sk BA ∧
+        (2 * cc b S key.mat.size) • ov K b sk r
+          = cc b S key.mat.size • U K i (ov K b sk a) (ov K b sk bo) + Ks.ι (2 ^ K) ErrL
+            + (2 * cc b S key.mat.size * 2 ^ (b * S)) • w0 :=
+  KsDec.merge_level_decrypts big128 K i hi b S rk hb62 H hH hh2 key sk gInv EL KL Dm BA hBA hsk hg hk a bo sh ha hb hsh r h
+
+/-- the executed level loop keeps the slot invariant (induction over `packLevel`/`packLevels` and the `SlotMap`) -/
+theorem pack_levels_inv (big128 : Bool) (K : ℕ) (hK : K + 1 ≤ 64) (keys : List Ks.Key) (sk : List Poly) (b S Sk rk : ℕ) (hb62 : b ≤ 62)
+    (H : ℤ) (hH : 2 ^ b - 1 ≤ H) (hh2 : NormL.HeadRoom 64 b 0 (H + H)) (BA : ℕ → ℤ) (hBA : ∀ i, 0 ≤ BA i)
+    (hsk : Ks.AllLen (2 ^ K) sk) (hkeys : PackKeys big128 K b S Sk rk sk keys BA)
+    (L : ℕ) (hL : L ≤ K) (m m' : Ks.SlotMap) (hm : ∀ j, OptInv (2 ^ K) b S rk H (m.get j)) (hm2 : ∀ j, 2 ^ K ≤ j → m.get j = none)
+    (h : Ks.packLevels big128 (2 ^ K) keys (List.range L) m = .ok m') :
+    (∀ j, j < 2 ^ (K - L) → SlotInv K L (cc b S Sk) (2 ^ (b * S)) b sk (packVal K (fun j => ov K b sk (m.get j)) L j)
+      (errB (fun i => mergeBeta b S Sk rk sk (BA i)) L) (m'.get j)) ∧
+    (∀ j, 2 ^ (K - L) ≤ j → m'.get j = none) ∧ (∀ j, OptInv (2 ^ K) b S rk H (m'.get j)) :=
+  KsDec.packLevels_inv big128 K hK keys sk b S Sk rk hb62 H hH hh2 BA hBA hsk hkeys L hL m m' hm hm2 h
+
+/-- **`glwe_pack_decrypts`** — the executed `glwe_pack`, every subset of slots, ring form: `(2^K c)•φ(res) = c•Σ_k X^{kG}·2^K·u_{kG} + ι Err + (2^K c 2^M)•z` -/
+theorem glwe_pack_decrypts (big128 : Bool) (K : ℕ) (hK : K + 1 ≤ 64) (keys : List Ks.Key) (sk : List Poly) (b S Sk rk : ℕ) (hb62 : b ≤ 62)
+    (H : ℤ) (hH : 2 ^ b - 1 ≤ H) (hh2 : NormL.HeadRoom 64 b 0 (H + H)) (BA : ℕ → ℤ) (hBA : ∀ i, 0 ≤ BA i)
+    (hsk : Ks.AllLen (2 ^ K) sk) (hkeys : PackKeys big128 K b S Sk rk sk keys BA)
+    (a : Ks.SlotMap) (logGapOut : ℕ) (res : Ks.Ct) (ha : ∀ j, OptInv (2 ^ K) b S rk H (a.get j))
+    (h : Ks.pack big128 (2 ^ K) b keys b S a logGapOut = .ok res) :
+    TraceInv (2 ^ K) b S rk H res ∧
+    ∃ (ErrL : Poly) (z : Ks.R (2 ^ K)), ErrL.length = 2 ^ K ∧ normInf ErrL ≤ packBound K (K - logGapOut) b S Sk rk sk BA ∧
+      (2 ^ K * cc b S Sk) • Ks.ι (2 ^ K) (valP b (2 ^ K) (phase sk res))
+        = cc b S Sk • (∑ k ∈ Finset.range (2 ^ (K - logGapOut)), rt (2 ^ K) ^ (k * 2 ^ (K - (K - logGapOut))) *
+            ((2 ^ K * slotU b (2 ^ K) sk a (k * 2 ^ (K - (K - logGapOut))) : ℤ) • (1 : Ks.R (2 ^ K))))
+          + Ks.ι (2 ^ K) ErrL + (2 ^ K * cc b S Sk * 2 ^ (b * S)) • z :=
+  KsDec.glwe_pack_decrypts big128 K hK keys sk b S Sk rk hb62 H hH hh2 BA hBA hsk hkeys a logGapOut res ha h
+
+/-- **coefficient form** (the `PackCoeffContract` of slice bin-fhe): coefficient `J` of the phase of the executed result is `u_J` (constant coefficient of slot `J`'s phase; `0` if the slot is absent or `J ∉ G·ℕ`) `+ e + 2^M q` -/
+theorem glwe_pack_decrypts_coeff (big128 : Bool) (K : ℕ) (hK : K + 1 ≤ 64) (keys : List Ks.Key) (sk : List Poly) (b S Sk rk : ℕ)
+    (hb62 : b ≤ 62) (H : ℤ) (hH : 2 ^ b - 1 ≤ H) (hh2 : NormL.HeadRoom 64 b 0 (H + H)) (BA : ℕ → ℤ) (hBA : ∀ i, 0 ≤ BA i)
+    (hsk : Ks.AllLen (2 ^ K) sk) (hkeys : PackKeys big128 K b S Sk rk sk keys BA)
+    (a : Ks.SlotMap) (logGapOut : ℕ) (res : Ks.Ct) (ha : ∀ j, OptInv (2 ^ K) b S rk H (a.get j))
+    (h : Ks.pack big128 (2 ^ K) b keys b S a logGapOut = .ok res) (J : ℕ) (hJ : J < 2 ^ K) :
+    ∃ e q : ℤ, (valP b (2 ^ K) (phase sk res)).getD J 0
+        = (if J % 2 ^ (K - (K - logGapOut)) = 0 then slotU b (2 ^ K) sk a J else 0) + e + 2 ^ (b * S) * q ∧
+      (2 ^ K * cc b S Sk) * |e| ≤ packBound K (K - logGapOut) b S Sk rk sk BA :=
+  KsDec.glwe_pack_decrypts_coeff big128 K hK keys sk b S Sk rk hb62 H hH hh2 BA hBA hsk hkeys a logGapOut res ha h J hJ
+
+/-- **with the normalised noise bound**: `2c·|e| ≤ Σ_{i<L} 2^{L−1−i}·(c·4(1+‖sk‖₁) + 2 BA_i) + 2·Σ_{trace levels}(c·2(1+‖sk‖₁) + BA_i)` — per merge two `rsh` units and the automorphism noise of the level's key, in terms of the key errors through `BA_i` -/
+theorem glwe_pack_decrypts_noise (big128 : Bool) (K : ℕ) (hK : K + 1 ≤ 64) (keys : List Ks.Key) (sk : List Poly) (b S Sk rk : ℕ)
+    (hb62 : b ≤ 62) (H : ℤ) (hH : 2 ^ b - 1 ≤ H) (hh2 : NormL.HeadRoom 64 b 0 (H + H)) (BA : ℕ → ℤ) (hBA : ∀ i, 0 ≤ BA i)
+    (hsk : Ks.AllLen (2 ^ K) sk) (hkeys : PackKeys big128 K b S Sk rk sk keys BA)
+    (a : Ks.SlotMap) (logGapOut : ℕ) (res : Ks.Ct) (ha : ∀ j, OptInv (2 ^ K) b S rk H (a.get j))
+    (h : Ks.pack big128 (2 ^ K) b keys b S a logGapOut = .ok res) (J : ℕ) (hJ : J < 2 ^ K) :
+    ∃ e q : ℤ, (valP b (2 ^ K) (phase sk res)).getD J 0
+        = (if J % 2 ^ (K - (K - logGapOut)) = 0 then slotU b (2 ^ K) sk a J else 0) + e + 2 ^ (b * S) * q ∧
+      (2 * cc b S Sk) * |e| ≤ ∑ i ∈ Finset.range (K - logGapOut), 2 ^ (K - logGapOut - 1 - i) * mergeBeta b S Sk rk sk (BA i)
+          + 2 * ∑ t ∈ Finset.range (K - (K - logGapOut)),
+              (cc b S Sk * (2 * (1 + snorm (min rk sk.length) sk)) + BA (K - logGapOut + t)) :=
+  KsDec.glwe_pack_decrypts_noise big128 K hK keys sk b S Sk rk hb62 H hH hh2 BA hBA hsk hkeys a logGapOut res ha h J hJ
+
+/-- one executed `combine` of the streaming `GLWEPacker` satisfies the merge relation -/
+theorem combine_decrypts (big128 : Bool) (K : ℕ) (hK : K + 1 ≤ 64) (keys : List Ks.Key) (sk : List Poly) (b S Sk rk : ℕ) (hb62 : b ≤ 62)
+    (H : ℤ) (hH : 2 ^ b - 1 ≤ H) (hh2 : NormL.HeadRoom 64 b 0 (H + H)) (BA : ℕ → ℤ) (hBA : ∀ i, 0 ≤ BA i)
+    (hsk : Ks.AllLen (2 ^ K) sk) (hkeys : PackKeys big128 K b S Sk rk sk keys BA)
+    (i : ℕ) (hi : i < K) (acc acc1 : Ks.Acc) (bo : Option Ks.Ct) (hacc : TraceInv (2 ^ K) b S rk H acc.data)
+    (hb : OptInv (2 ^ K) b S rk H bo) (h : Ks.combine big128 (2 ^ K) keys acc bo i = .ok acc1) :
+    TraceInv (2 ^ K) b S rk H acc1.data ∧ acc1.value = (acc.value || bo.isSome) ∧ acc1.control = acc.control ∧
+      ∃ (ErrL : Poly) (w0 : Ks.R (2 ^ K)), ErrL.length = 2 ^ K ∧ normInf ErrL ≤ mergeBeta b S Sk rk sk (BA i) ∧
+        (2 * cc b S Sk) • ov K b sk (accO acc1)
+          = cc b S Sk • U K i (ov K b sk (accO acc)) (ov K b sk bo) + Ks.ι (2 ^ K) ErrL + (2 * cc b S Sk * 2 ^ (b * S)) • w0 :=
+  KsDec.combine_decrypts big128 K hK keys sk b S Sk rk hb62 H hH hh2 BA hBA hsk hkeys i hi acc acc1 bo hacc hb h
+
+/-- the executed `glwe_pack` of two slots on `N = 2` (one merge, genuine key for `g = −1`), both accumulator widths; the phases: `u_0 = 44`,
+`u_1 = 31`, packed result `[48, 31]` -/
+example (big128 : Bool) : Ks.pack big128 (2 ^ 1) 4 [KsDec.trKey] 4 2 [(0, KsDec.trCt), (1, KsDec.pkB)] 0 = .ok KsDec.pkOut := KsDec.pkRun big128
+example : KsDec.slotU 4 (2 ^ 1) KsDec.trSk [(0, KsDec.trCt), (1, KsDec.pkB)] 0 = 44 ∧
+    KsDec.slotU 4 (2 ^ 1) KsDec.trSk [(0, KsDec.trCt), (1, KsDec.pkB)] 1 = 31 ∧
+    C02L.valP 4 (2 ^ 1) (Core.Ops.phase KsDec.trSk KsDec.pkOut) = [48, 31] := by decide +kernel
+end PackExecSec
+
+section PackInstanceSec
+open KsDec Hal Core Core.Ops C02L AutoMul TraceJump PackJump
+variable {M : Type*} [AddCommGroup M]
+
+/-- `MergeKeyOk` (both noise fields) for `dsize = 1` keys with the closed numeric bound `traceBA` -/
+theorem merge_key_ok_of_d1 {big128 : Bool} {N b S rk : Nat} {sk : List Poly} {key : Ks.Key} {gInv : Int} {EL KL : ℕ → ℕ → Poly}
+    {Dm Emax : Int} (h : TraceKeyD1 big128 N b S rk sk key gInv EL KL Dm Emax) (sn : ℤ)
+    (h1 : 1 + snorm (min rk sk.length) sk ≤ sn)
+    (h2 : 1 + snorm (min rk (sk.map (σ gInv)).length) (sk.map (σ gInv)) ≤ sn) :
+    MergeKeyOk big128 N b S rk sk key gInv EL KL Dm (traceBA N b S key.mat.size key.mat.colsIn key.mat.rows sn Emax) :=
+  KsDec.mergeKeyOk_of_d1 h sn h1 h2
+
+/-- **closed instance**: `N = 2`, both slots present, ONE EXECUTED merge with a genuine key for `g = −1`, both accumulator widths, every hypothesis discharged: `|e| ≤ 38` (executed: `4` and `0`) -/
+theorem pack_one_merge_closed_instance (big128 : Bool) (J : ℕ) (hJ : J < 2 ^ 1) :
+    Ks.pack big128 (2 ^ 1) 4 [trKey] 4 2 [(0, trCt), (1, pkB)] 0 = .ok pkOut ∧
+    ∃ e q : ℤ, (valP 4 (2 ^ 1) (phase trSk pkOut)).getD J 0 = slotU 4 (2 ^ 1) trSk [(0, trCt), (1, pkB)] J + e + 2 ^ (4 * 2) * q ∧
+      |e| ≤ 38 :=
+  KsDec.pack_closed_instance big128 J hJ
+
+/-- the key of the closed instance satisfies `MergeKeyOk` with `BA = 2^16·32`, both widths -/
+example (big128 : Bool) : KsDec.MergeKeyOk big128 (2 ^ 1) 4 2 1 KsDec.trSk KsDec.trKey (-1) KsDec.trEL (fun _ _ => [0, 0]) 2 (2 ^ 16 * 32) :=
+  KsDec.trKey_merge big128
+end PackInstanceSec
 
 end C03
